@@ -1,5 +1,6 @@
 import IronCalc.Io.XlsxEscape
 import Driver.Proto
+import Driver.C24Cell
 open IronCalc.XlsxEscape
 namespace Driver
 
@@ -9,6 +10,7 @@ def ofCps (l : List Nat) : String := String.ofList (l.map Char.ofNat)
 /-- `c24 esc|dec|xmltext|rt <hex>` — the model side of the codec suite -/
 def c24 (args : List String) : String :=
   match args with
+  | "cell" :: rest => Driver.Cell.cell rest
   | [op, h] =>
     match hexDecode h with
     | none => "bad-request"
